@@ -946,6 +946,240 @@ def check_callforms(cases):
     return len(index), failures, hist
 
 
+# ---------------------------------------------------------------------------
+# syntactic routes by which a template reaches a formatting operation
+
+PERCENT_ROUTES = ["binop", "augassign", "name", "global", "class_attr", "tuple_subscript", "dict_subscript", "ifexp",
+                  "walrus", "default_param", "chained", "in_fstring", "args_name", "augassign_subscript", "augassign_global",
+                  "augassign_attr", "nested_def", "lambda", "comprehension", "return_value"]
+FORMAT_ROUTES = ["call", "bound_var", "name", "walrus", "ifexp", "getattr", "in_fstring", "class_attr", "tuple_subscript"]
+
+
+def route_percent(route, i, T, A):
+    """-> (module-level lines, body lines of case_i, expression whose revealed type tells whether
+    the template is statically known at the point of use (None = the literal itself))"""
+    g, b = [], []
+    if route == "binop":
+        b = [f"r = {T} % {A}"]
+        known = None
+    elif route == "augassign":
+        b = [f"fmt = {T}", "reveal_type(fmt)", f"fmt %= {A}", "r = fmt"]
+        known = "fmt"
+    elif route == "name":
+        b = [f"fmt = {T}", "reveal_type(fmt)", f"r = fmt % {A}"]
+        known = "fmt"
+    elif route == "global":
+        g = [f"G_{i} = {T}"]
+        b = [f"reveal_type(G_{i})", f"r = G_{i} % {A}"]
+        known = "g"
+    elif route == "class_attr":
+        g = [f"class C_{i}:", f"    fmt = {T}"]
+        b = [f"reveal_type(C_{i}.fmt)", f"r = C_{i}.fmt % {A}"]
+        known = "a"
+    elif route == "tuple_subscript":
+        b = [f"tpl = ({T}, 0)", "reveal_type(tpl[0])", f"r = tpl[0] % {A}"]
+        known = "s"
+    elif route == "dict_subscript":
+        b = [f"d = {{'k': {T}}}", "reveal_type(d['k'])", f"r = d['k'] % {A}"]
+        known = "s"
+    elif route == "ifexp":
+        b = [f"r = ({T} if len('a') == 1 else {T}) % {A}"]
+        known = None
+    elif route == "walrus":
+        b = [f"r = (fmt := {T}) % {A}", "print(fmt)"]
+        known = None
+    elif route == "default_param":
+        b = [f"def h(fmt={T}):", "    reveal_type(fmt)", f"    return fmt % {A}", "r = h()"]
+        known = "p"
+    elif route == "chained":
+        b = [f"fmt = {T}", f"first = fmt % {A}", "reveal_type(first)", "r = first % ()"]
+        known = "chained"
+    elif route == "in_fstring":
+        b = [f"r = f'<{{{T} % {A}}}>'"]
+        known = None
+    elif route == "args_name":
+        b = [f"a = {A}", f"r = {T} % a"]
+        known = None
+    elif route == "augassign_subscript":
+        b = [f"box = [{T}]", f"box[0] %= {A}", "r = box[0]"]
+        known = "never"  # visit_AugAssign evaluates only Name targets; other targets are Any by design
+    elif route == "augassign_global":
+        g = [f"H_{i} = {T}"]
+        b = [f"fmt = H_{i}", "reveal_type(fmt)", f"fmt %= {A}", "r = fmt"]
+        known = "fmt"
+    elif route == "augassign_attr":
+        g = [f"class D_{i}:", f"    fmt = {T}"]
+        b = [f"o = D_{i}()", f"o.fmt %= {A}", "r = o.fmt"]
+        known = "never"
+    elif route == "nested_def":
+        b = [f"fmt = {T}", "def inner():", "    reveal_type(fmt)", f"    return fmt % {A}", "r = inner()"]
+        known = "n"
+    elif route == "lambda":
+        b = [f"r = (lambda: {T} % {A})()"]
+        known = None
+    elif route == "comprehension":
+        b = [f"r = [{T} % {A} for _i in range(1)][0]"]
+        known = None
+    else:  # return_value
+        b = [f"def h():", f"    return {T} % {A}", "r = h()"]
+        known = None
+    return g, b, known
+
+
+def route_format(route, i, T, call_args):
+    g, b = [], []
+    ca = ", ".join(call_args)
+    if route == "call":
+        b = [f"r = {T}.format({ca})"]
+        known = None
+    elif route == "bound_var":
+        b = [f"g = {T}.format", f"r = g({ca})"]
+        known = None
+    elif route == "name":
+        b = [f"fmt = {T}", "reveal_type(fmt)", f"r = fmt.format({ca})"]
+        known = "fmt"
+    elif route == "walrus":
+        b = [f"r = (fmt := {T}).format({ca})", "print(fmt)"]
+        known = None
+    elif route == "ifexp":
+        b = [f"r = ({T} if len('a') == 1 else {T}).format({ca})"]
+        known = None
+    elif route == "getattr":
+        b = [f"r = getattr({T}, 'format')({ca})"]
+        known = "getattr"
+    elif route == "in_fstring":
+        b = [f"r = f'<{{{T}.format({ca})}}>'"]
+        known = None
+    elif route == "class_attr":
+        g = [f"class F_{i}:", f"    fmt = {T}"]
+        b = [f"reveal_type(F_{i}.fmt)", f"r = F_{i}.fmt.format({ca})"]
+        known = "a"
+    else:  # tuple_subscript
+        b = [f"tpl = ({T}, 0)", "reveal_type(tpl[0])", f"r = tpl[0].format({ca})"]
+        known = "s"
+    return g, b, known
+
+
+def check_routes(rng, n_percent, n_format, known_ids=()):
+    """Clean (template, args) pairs — the format checker itself agrees with CPython on them — sent
+    through every syntactic route; each route is one function, executed under CPython and analysed
+    by NameCheckVisitor.  Where the template is statically known at the point of use (its revealed
+    type is a Literal) the statement must be reported iff it raises; otherwise it must at least
+    not be reported when it runs fine.  Returns (n_functions, failures, histogram)."""
+    import io
+    import contextlib
+    from pyanalyze.test_name_check_visitor import TestNameCheckVisitorBase
+    from pyanalyze.error_code import ErrorCode
+
+    clean = []
+    tries = 0
+    while len(clean) < n_percent and tries < n_percent * 40:
+        tries += 1
+        t, a = gen_structured(rng)
+        if not (safe_for_cpython(t) and safe_args(t, a)) or src_literal(a) is None or "\n" in repr(t):
+            continue
+        _, lint, acc, _typ = impl_percent(t, a)
+        if lint is None:
+            continue
+        py = cpython_percent(t, a)
+        nonlint = [k for k in list(lint) + list(acc) if k not in DOCUMENTED_LINT]
+        if py[0] not in ("ok", "raise") or bool(nonlint) != (py[0] == "raise") or (py[0] == "ok" and (lint or acc)):
+            continue
+        asrc = src_literal(a) if isinstance(a, (tuple, dict)) else "(" + src_literal(a) + ")"
+        clean.append(("percent", repr(t), asrc, py[0] == "raise"))
+    cleanf = []
+    tries = 0
+    while len(cleanf) < n_format and tries < n_format * 40:
+        tries += 1
+        t, args, kwargs = gen_format_structured(rng)
+        if not safe_for_cpython(t) or "\n" in repr(t):
+            continue
+        parts = [src_literal(x) for x in args]
+        if any(p is None for p in parts):
+            continue
+        parts += _kw_source(kwargs)
+        _, fk, _typ = impl_format(t, args, kwargs)
+        if fk is None:
+            continue
+        py = cpython_format(t, args, kwargs)
+        nonlint = [k for k in fk if k not in FORMAT_LINT]
+        if py[0] not in ("ok", "raise") or bool(nonlint) != (py[0] == "raise") or (py[0] == "ok" and fk):
+            continue
+        cleanf.append(("format", repr(t), parts, py[0] == "raise"))
+    # fixed shapes (always): the round-5 demo
+    clean = [("percent", repr("%d items"), "('three')", True), ("percent", repr("%d %d"), "(1,)", True),
+             ("percent", repr(b"%s"), "('x')", True), ("percent", repr("%(a)s and %(b)s"), "{'a': 1}", True),
+             ("percent", repr("%d %s"), "(1, 'a')", False), ("percent", repr(b"%d|%s"), "(3, b'y')", False)] + clean
+    header = ["from typing_extensions import reveal_type"]
+    funcs = []
+    lines = list(header)
+    glob_lines = []
+    idx = 0
+    for c in clean + cleanf:
+        routes = PERCENT_ROUTES if c[0] == "percent" else FORMAT_ROUTES
+        for route in routes:
+            idx += 1
+            if c[0] == "percent":
+                g, b, known = route_percent(route, idx, c[1], c[2])
+            else:
+                g, b, known = route_format(route, idx, c[1], c[2])
+            glob_lines += g
+            funcs.append((idx, c, route, b, known))
+    lines += glob_lines
+    meta = {}
+    for idx, c, route, b, known in funcs:
+        start = len(lines) + 1
+        lines.append(f"def case_{idx}():")
+        lines += ["    " + x for x in b]
+        lines.append("    print(r)")
+        meta[idx] = (start, len(lines), c, route, b, known)
+    code = "\n".join(lines) + "\n"
+    buf = io.StringIO()
+    with contextlib.redirect_stderr(buf), contextlib.redirect_stdout(buf):
+        errs = TestNameCheckVisitorBase()._run_str(code, fail_after_first=False,
+                                                   settings={ErrorCode.use_fstrings: False, ErrorCode.duplicate_dict_key: False, ErrorCode.missing_f: False})
+        ns = {}
+        exec(compile(code, "<routes>", "exec"), ns)
+        ns["reveal_type"] = lambda x: x
+        outcomes = {}
+        for idx in meta:
+            try:
+                ns[f"case_{idx}"]()
+                outcomes[idx] = None
+            except Exception as ex:
+                outcomes[idx] = type(ex).__name__
+    failures = []
+    hist = {}
+    FORMAT_CODES = ("bad_format_string", "incompatible_call")
+    for idx, (start, end, c, route, b, known) in meta.items():
+        es = [e for e in errs if start <= e["lineno"] <= end]
+        reported = [e["code"].name for e in es if e["code"].name in FORMAT_CODES and "were not used" not in e["message"]]
+        reveals = [revealed(e["message"]) for e in es if e["code"].name == "reveal_type"]
+        raised = outcomes[idx]
+        want_raise = c[3]
+        if route == "chained":
+            # (T % A) % (): the second operation sees a non-literal str; only the first is comparable
+            is_known = True
+            expect_raise = want_raise
+            if raised is not None and not want_raise:
+                continue  # the formatted result itself contained a '%': not this case's business
+        else:
+            is_known = known is None or (known != "never" and bool(reveals) and reveals[0][0] == "literal")
+            expect_raise = raised is not None
+            if (raised is not None) != want_raise:
+                continue  # the route changed what is executed (e.g. a scalar tuple argument): skip
+        _bump(hist, f"{c[0]}/{route}/" + ("known" if is_known else "unknown") + ("/raise" if expect_raise else "/ok") + ("/reported" if reported else "/silent"))
+        src = "; ".join(b)
+        if expect_raise and is_known and not reported:
+            if route == "walrus" and c[0] == "percent" and "C17-annotated-template-unchecked" in known_ids:
+                _bump(hist, "known/C17-annotated-template-unchecked")
+                continue
+            failures.append((f"[{route}] {src}", f"CPython raises {raised}; the template is statically known here, nothing reported", route))
+        elif not expect_raise and reported:
+            failures.append((f"[{route}] {src}", f"reported {reported[0]} but the statements run fine under CPython", route))
+    return len(meta), failures, hist
+
+
 def gen_fstring(rng):
     """f-string source with literal operands (JoinedStr / FormattedValue)."""
     parts = []
@@ -1570,11 +1804,23 @@ def run(tier: str, replay: str | None = None):
                        "expected": "bad_format_string is reported iff evaluating the f-string raises",
                        "how_to_run": "./check C17 --replay <this file>"})
     callform_fail = callform_fail + callform_extra
+    route_n, route_fail, route_hist = 0, [], {}
+    if not replay:
+        try:
+            route_n, route_fail, route_hist = check_routes(rng, 40 if tier == "quick" else 300, 25 if tier == "quick" else 200, known_ids)
+        except Exception as ex:  # noqa
+            rep.harness_error(f"route stream failed: {type(ex).__name__}: {ex}")
+    if route_hist.get("known/C17-annotated-template-unchecked"):
+        rep.known("C17-annotated-template-unchecked", next(f["what"] for f in findings if f["id"] == "C17-annotated-template-unchecked"))
+    for src, what, route in route_fail[:5]:
+        rep.violation({"kind": "failing-input", "input": {"kind": "statements", "route": route, "python": src},
+                       "observed": what, "expected": "a formatting operation on a statically known template is reported iff CPython raises, by whatever syntactic route the template reaches it",
+                       "how_to_run": "exec the statements under CPython; run pyanalyze on a function containing them"})
     for src, what, form in callform_fail[:5]:
         rep.violation({"kind": "failing-input", "input": {"kind": "expression", "callform": ("unmodelled" if form in ("format_map", "mod_dunder", "mod_unbound", "operator_mod") else "modelled"), "python": src},
                        "observed": what, "expected": "a formatting call is reported iff CPython raises (the 'not used' lint apart); spellings pyanalyze does not check must at least not be reported when they evaluate fine",
                        "how_to_run": "./check C17 --replay <this file>"})
-    found_input = bool(total["new"]) or bool(e2e_type_mismatch) or bool(fstring_mismatch) or bool(callform_fail)
+    found_input = bool(total["new"]) or bool(e2e_type_mismatch) or bool(fstring_mismatch) or bool(callform_fail) or bool(route_fail)
     if total["spec"]:
         expr, py, ml = total["spec"][0]
         # the specification model disagrees with the interpreter: the harness is wrong, not pyanalyze
@@ -1609,6 +1855,8 @@ def run(tier: str, replay: str | None = None):
         end_to_end_type_mismatches=len(e2e_type_mismatch),
         fstrings=n_fstrings,
         call_forms=callform_n,
+        route_functions=route_n,
+        route_distribution=route_hist,
         call_form_distribution=callform_hist,
         input_distribution=hist,
         correspondence_mismatches=total["n_corr"],
